@@ -19,7 +19,7 @@ ANCHORS = ["decaylanguage.dec.dec:DecFileParser._add_charge_conjugate_decays", "
            "decaylanguage.dec.dec:find_charge_conjugate_match", "decaylanguage.utils.particleutils:charge_conjugate_name",
            "decaylanguage.dec.dec:DecFileParser._add_decays_to_be_copied"]
 WORKERS = {"quick": 4, "thorough": 16}
-WTESTS = {"groups": ['parse'], "tests": ['tests/dec']}
+WTESTS = {"groups": ['parse'], "tests": ['tests/dec'], "counts": ["C01.parse."]}
 REQUIRED = {"orientation:forward": 20, "orientation:reverse": 20, "alias-alias-pair": 20, "self-pair": 5, "unknown-daughter": 20, "self-conjugate-daughter": 20,
             "aliased-daughter": 20, "source-from-CopyDecay": 10, "cdecay-without-source": 10, "decay+cdecay-one-name": 10, "decay+cdecay>=2-names": 5,
             "chargeconj-statements:1-2": 10, "chargeconj-statements>=6": 5, "switch-off:>3-tables+applicable": 10, "cdecay-before-source-block": 10,
